@@ -71,48 +71,49 @@ type Violation struct {
 
 // Exec is the state of one path execution.
 type Exec struct {
-	eng       *Engine
-	h         *Harness
-	tc        *TermCtx
-	sv        *Solver
-	prefix    []int64
-	pos       int
-	decisions []int64
-	model     Model
-	modelOK   bool
-	globals   map[*ssa.Global]*Value
-	pkgInit   map[*ssa.Package]bool
-	steps     int64
-	maxSteps  int64
-	allocSeq  uint64
-	emptyStr  *StrV
-	bytes     [256]*Term
-	draws     []Draw
-	nvar      int
-	viol      []*Violation
-	covers    map[string]bool
-	depth     int
-	curFn     []*ssa.Function
-	fnSteps   map[*ssa.Function]int64
-	stubsHit  map[string]int
-	pool      map[*Value][]Value // sync.Pool contents keyed by pool cell
-	hashes    map[*Value]*hashState
-	once      map[*Value]bool
-	clock     *Term
-	nowCount  int
-	pushed    int
-	inconc    []string
-	trace     bool
-	observed  []string
-	unwind    int
-	sizeBound int
-	rtErrT    types.Type
-	syncMaps  map[*Value]*MapV
-	inMerge   int
-	zw        map[*Value]*zwState
-	panicFn   string
-	mergeCond *Term
-	mergeFail map[*ssa.If]int
+	eng         *Engine
+	h           *Harness
+	tc          *TermCtx
+	sv          *Solver
+	prefix      []int64
+	pos         int
+	decisions   []int64
+	model       Model
+	modelOK     bool
+	globals     map[*ssa.Global]*Value
+	pkgInit     map[*ssa.Package]bool
+	steps       int64
+	maxSteps    int64
+	allocSeq    uint64
+	emptyStr    *StrV
+	bytes       [256]*Term
+	draws       []Draw
+	nvar        int
+	viol        []*Violation
+	covers      map[string]bool
+	depth       int
+	curFn       []*ssa.Function
+	fnSteps     map[*ssa.Function]int64
+	stubsHit    map[string]int
+	pool        map[*Value][]Value // sync.Pool contents keyed by pool cell
+	hashes      map[*Value]*hashState
+	once        map[*Value]bool
+	clock       *Term
+	nowCount    int
+	pushed      int
+	inconc      []string
+	trace       bool
+	observed    []string
+	unwind      int
+	sizeBound   int
+	rtErrT      types.Type
+	syncMaps    map[*Value]*MapV
+	inMerge     int
+	clockFrozen bool
+	zw          map[*Value]*zwState
+	panicFn     string
+	mergeCond   *Term
+	mergeFail   map[*ssa.If]int
 }
 
 func (e *Exec) unsupported(msg string) {
